@@ -3057,3 +3057,113 @@ func runControlDoesNotEndScan(c *Ctx, rule string) {
 		c.Undecided(rule, "ZNG scanners", "fewer than 2 eof stores found ("+sprint(n)+")")
 	}
 }
+
+// ---- C03-X1: no element of a slice that is certainly nil is addressed.
+//
+// `var values []T` followed by `values[slot] = …` indexes a nil slice: it panics on the first
+// element.  In SSA the base of such an IndexAddr is the nil constant (possibly through phis that
+// only merge nil constants).  Sound and exact for the code it flags: if the instruction executes,
+// it panics.
+func runNilSliceIndex(c *Ctx, rule string, pkgs ...string) {
+	p := c.P
+	c.Rule(rule, "in the VNG reader, the vector cache and the vector packages no element of a slice that can only be nil is addressed (an arm of a per-type decoder that declares its result slice without allocating it panics on the first value of that type)")
+	var onlyNil func(v ssa.Value, seen map[ssa.Value]bool) bool
+	onlyNil = func(v ssa.Value, seen map[ssa.Value]bool) bool {
+		if seen[v] {
+			return true
+		}
+		seen[v] = true
+		switch x := v.(type) {
+		case *ssa.Const:
+			return x.Value == nil
+		case *ssa.Phi:
+			for _, e := range x.Edges {
+				if !onlyNil(e, seen) {
+					return false
+				}
+			}
+			return true
+		}
+		return false
+	}
+	n, bad := 0, 0
+	for _, fn := range p.FuncsIn(pkgs...) {
+		for _, b := range fn.Blocks {
+			for _, in := range b.Instrs {
+				ia, ok := in.(*ssa.IndexAddr)
+				if !ok {
+					continue
+				}
+				if _, isSlice := ia.X.Type().Underlying().(*types.Slice); !isSlice {
+					continue
+				}
+				n++
+				if onlyNil(ia.X, map[ssa.Value]bool{}) {
+					bad++
+					c.Fail(rule, constructName(fn)+" indexes a nil slice", ia.Pos(), "the slice addressed here is never allocated (it can only be nil): the first value decoded through this arm panics with index out of range — a column of this type crashes the reader")
+				}
+			}
+		}
+	}
+	if bad == 0 {
+		c.OK(rule, "slice element accesses", token.NoPos, sprint(n)+" element accesses examined, none on a certainly-nil slice")
+	}
+	if n < 100 {
+		c.Undecided(rule, "slice element accesses", "fewer than 100 element accesses found ("+sprint(n)+")")
+	}
+}
+
+// ---- C03-P1: a projection path that is a prefix of another one wins.
+func runProjectionPrefix(c *Ctx, rule string) {
+	p := c.P
+	c.Rule(rule, "vcache.insertPath descends into the remainders of two paths with a common head only after it tested that neither is exhausted there (len == 1): if one path is a prefix of the other the shorter one selects everything below it — otherwise projecting `a` together with `a.b` silently narrows `a` to `a.b`")
+	fn := p.Func("runtime/vcache.insertPath")
+	if fn == nil {
+		c.Undecided(rule, "runtime/vcache.insertPath", "anchor does not resolve")
+		return
+	}
+	existing, addition := fn.Params[0], fn.Params[1]
+	n := 0
+	for _, ci := range allCalls(fn) {
+		if ci.Common().StaticCallee() != fn {
+			continue
+		}
+		args := ci.Common().Args
+		s0, ok0 := args[0].(*ssa.Slice)
+		s1, ok1 := args[1].(*ssa.Slice)
+		if !ok0 || !ok1 || stripConv(s0.X) != ssa.Value(existing) || stripConv(s1.X) != ssa.Value(addition) {
+			continue
+		}
+		n++
+		blk := ci.(ssa.Instruction).Block()
+		tested := map[ssa.Value]bool{}
+		for _, gb := range fn.Blocks {
+			iff, ok := gb.Instrs[len(gb.Instrs)-1].(*ssa.If)
+			if !ok || !gb.Dominates(blk) || gb == blk {
+				continue
+			}
+			cmp, ok := iff.Cond.(*ssa.BinOp)
+			if !ok {
+				continue
+			}
+			k, isK := cmp.Y.(*ssa.Const)
+			if !isK || k.Value == nil || k.Int64() != 1 {
+				continue
+			}
+			if call, ok := cmp.X.(*ssa.Call); ok {
+				if b, ok := call.Call.Value.(*ssa.Builtin); ok && b.Name() == "len" {
+					tested[stripConv(call.Call.Args[0])] = true
+				}
+			}
+		}
+		construct := "runtime/vcache.insertPath descends below a common head"
+		if tested[existing] && tested[addition] {
+			c.OK(rule, construct, ci.Pos(), "after both paths were tested for ending here")
+		} else {
+			c.Fail(rule, construct, ci.Pos(), "the remainders of the two paths are merged without testing whether one of them ends at the common head: a path that is a prefix of another (a and a.b) is narrowed to the longer one, so a projection returns less than the full read has at that path")
+		}
+	}
+	if n == 0 {
+		c.Undecided(rule, "runtime/vcache.insertPath", "no descent below a common head found")
+	}
+}
